@@ -155,6 +155,8 @@ func freshScenario(c *core.Ctx, stream string, idx int) {
 	// barrier (which opens only when all threads arrive), at least one of them at
 	// a mutex, and nothing can take a step
 	deadlock := ""
+	var deadlockDetail map[string]interface{}
+	lastPic, confirmed := "", 0
 	for i := 0; deadlock == ""; i++ {
 		select {
 		case <-done:
@@ -168,6 +170,7 @@ func freshScenario(c *core.Ctx, stream string, idx int) {
 				byID[d[k].ID] = &d[k]
 			}
 			atMutex, ok := 0, true
+			var stacks []string
 			for t := 0; t < threads; t++ {
 				if atomic.LoadInt32(&fin[t]) == 1 {
 					continue
@@ -178,13 +181,37 @@ func freshScenario(c *core.Ctx, stream string, idx int) {
 					ok = false
 				case g.BlockedInEcalMutex():
 					atMutex++
+					stacks = append(stacks, fmt.Sprintf("thread %d goroutine %d [%s]: %s", t, g.ID, g.State, strings.Join(g.Frames, " <- ")))
 				case g.State == "chan receive" && g.Has("c12.fFunc.Run"):
+					stacks = append(stacks, fmt.Sprintf("thread %d goroutine %d [%s] at the barrier", t, g.ID, g.State))
 				default:
 					ok = false
 				}
 			}
+			pic := ""
 			if ok && atMutex > 0 && !sched.CanStep(sched.Dump(), sched.GoID()) {
+				pic = fmt.Sprint(stacks, atomic.LoadInt64(&st.entries))
+			}
+			// the same picture three times in a row (same goroutines parked at the
+			// same places, no entry into any block in between): a state that lasts
+			if pic == "" || pic != lastPic {
+				lastPic, confirmed = pic, 0
+			}
+			if pic != "" {
+				confirmed++
+			}
+			if confirmed >= 3 {
 				deadlock = fmt.Sprintf("%d thread(s) parked acquiring a mutex block, the rest at the barrier or finished", atMutex)
+				var arr []int32
+				for k := range st.arrived {
+					arr = append(arr, atomic.LoadInt32(&st.arrived[k]))
+				}
+				var finv []int32
+				for t := range fin {
+					finv = append(finv, atomic.LoadInt32(&fin[t]))
+				}
+				deadlockDetail = map[string]interface{}{"threads_state": stacks, "barrier_arrivals": fmt.Sprint(arr), "finished": fmt.Sprint(finv), "errors": fmt.Sprint(errs),
+					"mutex_log": strings.Join(erp.MutexLog.StringSlice(), " | ")}
 			}
 			if i > 40000 {
 				deadlock = "?"
@@ -198,7 +225,7 @@ func freshScenario(c *core.Ctx, stream string, idx int) {
 			c.Inconclusive("threads neither finished nor reached a deadlock within the polling bound", stream, idx, nil)
 		} else {
 			c.Violation("fresh:deadlock", "threads entering never before entered mutex names block each other for good: "+deadlock, stream, idx,
-				map[string]interface{}{"threads": threads, "names": names, "nested": nested})
+				map[string]interface{}{"threads": threads, "names": names, "nested": nested, "witness": deadlockDetail})
 		}
 		return // the threads of this scenario are left behind
 	}
